@@ -271,6 +271,11 @@ package commands
 // it is stopped by a registered defer, and the adapters' Stop reaches the wrapped iterator, see pkg/storage)
 //@ func (*ExpandQuery).resolveThis(q, ctx, store, tk, typesys, consistency) (res, err)
 //@   property C30 C20
+// "... list, sorted and without duplicates": the users are collected from the key set of a map (a map range yields
+// every key at most once): they are pairwise distinct when handed to the sort, which only permutes them
+//@   loop 1 invariant (forall a int :: 0 <= a && a < len(users) ==> $seen[users[a]]) && (forall a int, b int :: 0 <= a && a < b && b < len(users) ==> users[a] != users[b])
+//@   monitor dedup
+//@     before call slices.Sort args x : assert x == users && (forall a int, b int :: 0 <= a && a < b && b < len(x) ==> x[a] != x[b])
 //@   option monitor_props release=C20
 //@   ensures @iteratorReleased opened ==> released
 //@   monitor release
